@@ -298,6 +298,35 @@ func hostilePrograms() []hostile {
 		f.WritePDF(fw)
 		return true
 	}})
+	// inputs that differ from everything the probe workload reads: whatever a
+	// reader or writer keeps in package-level scratch storage is left in a
+	// different state than after the probe
+	hs = append(hs, hostile{"readers and writers on inputs the probe never sees", func() bool {
+		t1 := corpus.FontsT1gen()
+		for _, in := range []corpus.Input{t1[0], t1[len(t1)/2], t1[len(t1)-1]} {
+			if f, err := type1.Read(bytes.NewReader(in.Data)); err == nil {
+				f.Write(&bytes.Buffer{}, nil)
+				f.WritePDF(&bytes.Buffer{})
+			}
+		}
+		cms := corpus.CMaps()
+		postscript.ReadCMap(bytes.NewReader(cms[len(cms)-1].Data))
+		postscript.ReadCMap(bytes.NewReader(cms[2].Data))
+		if m, err := afm.Read(bytes.NewReader(corpus.AFMs()[0].Data)); err == nil {
+			m.Write(&bytes.Buffer{})
+		}
+		pf := corpus.PFBs()
+		observe.Run("pfb", bytes.NewReader(pf[len(pf)-1].Data))
+		intp := postscript.NewInterpreter()
+		intp.ExecuteString("/zzz (some other string \\(nested\\) \\101) def <7a7a7a> 16#7f 1.5e3 [/a /b] {pop} forall <~87cURD]i,\"Ebo80~> pop")
+		for _, n := range []string{"zzz", "Q_u.alt", "uni0041", "u1F600", "a100"} {
+			names.ToUnicode(n, false)
+			names.ToUnicode(n, true)
+		}
+		names.FromUnicode(0x1F600)
+		names.FromUnicode('z')
+		return true
+	}})
 	hs = append(hs, hostile{"font read, mutated and written", func() bool {
 		f, err := type1.Read(bytes.NewReader(corpus.Fonts()[0].Data))
 		if err == nil {
@@ -652,7 +681,7 @@ func main() {
 				budget = 10 * time.Minute
 				length, preempt, nOps = 3, 3, len(nameOps)
 			}
-			return []mc.Family{historiesFamily(length, budget), lazyInitFamily(preempt, nOps, budget), overlapFamily(preempt, budget), raceFamily()}
+			return []mc.Family{historiesFamily(length, budget), lazyInitFamily(preempt, nOps, budget), overlapFamily(preempt, tier == "thorough", budget), raceFamily()}
 		},
 	})
 }
